@@ -118,6 +118,7 @@ func (x *Exec) bulkWrite(st *State, elem types.Type, arr, off, n string, src fun
 			body = ite(and(cond...), v, body)
 		}
 		st.Comp[key] = c.define(mangle(key)+"_bulk", x.compSort(key), fmt.Sprintf("(lambda ((%s Loc)) %s)", l, body))
+		heapParents[st.Comp[key]] = [2]string{h0, sx("ref", arr)}
 	}
 }
 
@@ -137,6 +138,7 @@ func (x *Exec) havocObject(st *State, sorts map[string]bool, arr string) {
 		l := c.fresh("l")
 		st.Comp[key] = c.define(mangle(key)+"_hv", x.compSort(key),
 			fmt.Sprintf("(lambda ((%s Loc)) %s)", l, ite(and(sx("(_ is at)", l), eq(sx("ref", l), sx("ref", arr))), sx("select", hn, l), sx("select", h0, l))))
+		heapParents[st.Comp[key]] = [2]string{h0, sx("ref", arr)}
 	}
 }
 
@@ -149,7 +151,7 @@ func zeroOfSort(c *Ctx, s string) string {
 	switch s {
 	case "Bool":
 		return "false"
-	case "Int":
+	case "Int", "Byte":
 		return "0"
 	case "Loc":
 		return "nil"
@@ -171,4 +173,35 @@ func zeroOfSort(c *Ctx, s string) string {
 		return bvLitBig0(w)
 	}
 	return c.freshConst("zero", s)
+}
+
+// notPrivate: a reference obtained from outside (a call result, a load, a received value) is never one
+// of the non-escaping stack objects of the frames being executed (go/ssa marks those Alloc.Heap == false)
+func (x *Exec) notPrivate(ref string) string {
+	var cs []string
+	for _, p := range x.privateRefs {
+		cs = append(cs, not(eq(ref, p)))
+	}
+	return and(cs...)
+}
+
+// noteOutsideRef: the value v (a specification-level method result: what some object outside reports) never
+// refers to a non-escaping stack object of the executing frames, whichever is created first
+func (x *Exec) noteOutsideRef(t types.Type, v string) {
+	var ref string
+	switch types.Unalias(t).Underlying().(type) {
+	case *types.Pointer, *types.Map:
+		ref = sx("ref", v)
+	case *types.Slice:
+		ref = sx("ref", sx("sl_arr", v))
+	default:
+		return
+	}
+	for _, o := range x.outsideRefs {
+		if o == ref {
+			return
+		}
+	}
+	x.outsideRefs = append(x.outsideRefs, ref)
+	x.c.assume(x.notPrivate(ref))
 }
